@@ -79,8 +79,11 @@ Definition spec_order : list group :=
 (* ------------------------------------------------------------------------------------------ *)
 (* argument values *)
 
+(* VDict: a Python dict, as the list of its entries `VList [VStr key; value]` (the harness writes
+   them key-sorted; a dict whose keys are not strings is outside the modelled domain) *)
 Inductive pyval :=
-| VInt (z : Z) | VBool (b : bool) | VStr (s : string) | VNone | VList (l : list pyval).
+| VInt (z : Z) | VBool (b : bool) | VStr (s : string) | VNone | VList (l : list pyval)
+| VDict (entries : list pyval).
 
 Fixpoint pyval_eqb (a b : pyval) {struct a} : bool :=
   match a, b with
@@ -89,6 +92,13 @@ Fixpoint pyval_eqb (a b : pyval) {struct a} : bool :=
   | VStr x, VStr y => String.eqb x y
   | VNone, VNone => true
   | VList xs, VList ys =>
+      (fix go (xs ys : list pyval) {struct xs} : bool :=
+         match xs, ys with
+         | [], [] => true
+         | x :: xs', y :: ys' => pyval_eqb x y && go xs' ys'
+         | _, _ => false
+         end) xs ys
+  | VDict xs, VDict ys =>
       (fix go (xs ys : list pyval) {struct xs} : bool :=
          match xs, ys with
          | [], [] => true
@@ -110,7 +120,34 @@ Fixpoint kwargs_eqb (a b : kwargs) : bool :=
 (* ------------------------------------------------------------------------------------------ *)
 (* models, pipelines *)
 
-Record mfun := { name : string; enabled : bool; args : kwargs }.
+(* grows: the model function changes its container arguments IN PLACE each time it is called (the
+   probe verif_probes_c01.grow: every list-valued argument, and every list directly inside a
+   dict-valued argument, gets its own length appended).  ModelFunction.__call__ hands over the very
+   objects stored in the configuration (func(detector, **self.arguments)), so such a model changes
+   what the same ModelFunction object passes at its next call. *)
+Record mfun := { name : string; enabled : bool; grows : bool; args : kwargs }.
+
+Definition grow_list (l : list pyval) : list pyval := l ++ [VInt (Z.of_nat (List.length l))].
+
+Definition grow_inner (v : pyval) : pyval :=
+  match v with VList l => VList (grow_list l) | _ => v end.
+
+Definition grow_entry (e : pyval) : pyval :=
+  match e with VList [k; v] => VList [k; grow_inner v] | _ => e end.
+
+Definition grow_val (v : pyval) : pyval :=
+  match v with
+  | VList l => VList (grow_list l)
+  | VDict es => VDict (map grow_entry es)
+  | _ => v
+  end.
+
+Definition grow_kwargs (a : kwargs) : kwargs := map (fun kv => (fst kv, grow_val (snd kv))) a.
+
+(* what position m receives at readout step `step` of a run that started with configuration m: it
+   has been called once per earlier step of this run *)
+Definition recv (step : nat) (m : mfun) : kwargs :=
+  if grows m then Nat.iter step grow_kwargs (args m) else args m.
 
 Record pipeline := {
   p_scene_generation : option (list mfun);
@@ -205,7 +242,7 @@ Record call := {
 }.
 
 Definition mk_call (step : nat) (g : group) (k : nat) (m : mfun) : call :=
-  {| c_step := step; c_group := g; c_pos := k; c_name := name m; c_args := args m |}.
+  {| c_step := step; c_group := g; c_pos := k; c_name := name m; c_args := recv step m |}.
 
 Definition capture := (nat * string * string)%type.   (* /intermediate/time_idx_<step>/<group>/<model> *)
 
@@ -294,29 +331,149 @@ Definition key_lt (order : list group) (a b : call) : Prop :=
     (rank order (c_group a) = rank order (c_group b) /\ c_pos a < c_pos b))).
 
 (* ------------------------------------------------------------------------------------------ *)
-(* observation mode: one run = the pipeline with one argument of one model replaced
-   (Processor.set "pipeline.<group>.<model>.arguments.<key>": first model of that name, key must exist) *)
+(* writing into a configuration *)
 
-Record override := { o_group : group; o_model : string; o_key : string; o_value : pyval }.
-
-Fixpoint set_kw (k : string) (v : pyval) (a : kwargs) : kwargs :=
-  match a with
-  | [] => []
-  | (k', v') :: r => if String.eqb k' k then (k', v) :: r else (k', v') :: set_kw k v r
+(* pipeline with group g replaced (the other nine fields untouched) *)
+Definition set_group (p : pipeline) (g : group) (v : option (list mfun)) : pipeline :=
+  match g with
+  | SceneGeneration =>
+      {| p_scene_generation := v; p_photon_collection := p_photon_collection p; p_phasing := p_phasing p;
+         p_charge_generation := p_charge_generation p; p_charge_collection := p_charge_collection p;
+         p_charge_transfer := p_charge_transfer p; p_charge_measurement := p_charge_measurement p;
+         p_signal_transfer := p_signal_transfer p; p_readout_electronics := p_readout_electronics p;
+         p_data_processing := p_data_processing p |}
+  | PhotonCollection =>
+      {| p_scene_generation := p_scene_generation p; p_photon_collection := v; p_phasing := p_phasing p;
+         p_charge_generation := p_charge_generation p; p_charge_collection := p_charge_collection p;
+         p_charge_transfer := p_charge_transfer p; p_charge_measurement := p_charge_measurement p;
+         p_signal_transfer := p_signal_transfer p; p_readout_electronics := p_readout_electronics p;
+         p_data_processing := p_data_processing p |}
+  | Phasing =>
+      {| p_scene_generation := p_scene_generation p; p_photon_collection := p_photon_collection p; p_phasing := v;
+         p_charge_generation := p_charge_generation p; p_charge_collection := p_charge_collection p;
+         p_charge_transfer := p_charge_transfer p; p_charge_measurement := p_charge_measurement p;
+         p_signal_transfer := p_signal_transfer p; p_readout_electronics := p_readout_electronics p;
+         p_data_processing := p_data_processing p |}
+  | ChargeGeneration =>
+      {| p_scene_generation := p_scene_generation p; p_photon_collection := p_photon_collection p; p_phasing := p_phasing p;
+         p_charge_generation := v; p_charge_collection := p_charge_collection p;
+         p_charge_transfer := p_charge_transfer p; p_charge_measurement := p_charge_measurement p;
+         p_signal_transfer := p_signal_transfer p; p_readout_electronics := p_readout_electronics p;
+         p_data_processing := p_data_processing p |}
+  | ChargeCollection =>
+      {| p_scene_generation := p_scene_generation p; p_photon_collection := p_photon_collection p; p_phasing := p_phasing p;
+         p_charge_generation := p_charge_generation p; p_charge_collection := v;
+         p_charge_transfer := p_charge_transfer p; p_charge_measurement := p_charge_measurement p;
+         p_signal_transfer := p_signal_transfer p; p_readout_electronics := p_readout_electronics p;
+         p_data_processing := p_data_processing p |}
+  | ChargeTransfer =>
+      {| p_scene_generation := p_scene_generation p; p_photon_collection := p_photon_collection p; p_phasing := p_phasing p;
+         p_charge_generation := p_charge_generation p; p_charge_collection := p_charge_collection p;
+         p_charge_transfer := v; p_charge_measurement := p_charge_measurement p;
+         p_signal_transfer := p_signal_transfer p; p_readout_electronics := p_readout_electronics p;
+         p_data_processing := p_data_processing p |}
+  | ChargeMeasurement =>
+      {| p_scene_generation := p_scene_generation p; p_photon_collection := p_photon_collection p; p_phasing := p_phasing p;
+         p_charge_generation := p_charge_generation p; p_charge_collection := p_charge_collection p;
+         p_charge_transfer := p_charge_transfer p; p_charge_measurement := v;
+         p_signal_transfer := p_signal_transfer p; p_readout_electronics := p_readout_electronics p;
+         p_data_processing := p_data_processing p |}
+  | SignalTransfer =>
+      {| p_scene_generation := p_scene_generation p; p_photon_collection := p_photon_collection p; p_phasing := p_phasing p;
+         p_charge_generation := p_charge_generation p; p_charge_collection := p_charge_collection p;
+         p_charge_transfer := p_charge_transfer p; p_charge_measurement := p_charge_measurement p;
+         p_signal_transfer := v; p_readout_electronics := p_readout_electronics p;
+         p_data_processing := p_data_processing p |}
+  | ReadoutElectronics =>
+      {| p_scene_generation := p_scene_generation p; p_photon_collection := p_photon_collection p; p_phasing := p_phasing p;
+         p_charge_generation := p_charge_generation p; p_charge_collection := p_charge_collection p;
+         p_charge_transfer := p_charge_transfer p; p_charge_measurement := p_charge_measurement p;
+         p_signal_transfer := p_signal_transfer p; p_readout_electronics := v;
+         p_data_processing := p_data_processing p |}
+  | DataProcessing =>
+      {| p_scene_generation := p_scene_generation p; p_photon_collection := p_photon_collection p; p_phasing := p_phasing p;
+         p_charge_generation := p_charge_generation p; p_charge_collection := p_charge_collection p;
+         p_charge_transfer := p_charge_transfer p; p_charge_measurement := p_charge_measurement p;
+         p_signal_transfer := p_signal_transfer p; p_readout_electronics := p_readout_electronics p;
+         p_data_processing := v |}
   end.
 
-Fixpoint upd_first (mn k : string) (v : pyval) (ms : list mfun) : list mfun :=
+(* the same function applied to the model list of every present group *)
+Definition map_groups (f : list mfun -> list mfun) (p : pipeline) : pipeline :=
+  {| p_scene_generation := option_map f (p_scene_generation p);
+     p_photon_collection := option_map f (p_photon_collection p);
+     p_phasing := option_map f (p_phasing p);
+     p_charge_generation := option_map f (p_charge_generation p);
+     p_charge_collection := option_map f (p_charge_collection p);
+     p_charge_transfer := option_map f (p_charge_transfer p);
+     p_charge_measurement := option_map f (p_charge_measurement p);
+     p_signal_transfer := option_map f (p_signal_transfer p);
+     p_readout_electronics := option_map f (p_readout_electronics p);
+     p_data_processing := option_map f (p_data_processing p) |}.
+
+Definition set_args (m : mfun) (a : kwargs) : mfun :=
+  {| name := name m; enabled := enabled m; grows := grows m; args := a |}.
+
+(* the configuration object after it was itself executed for n readout steps (exposure mode runs
+   the user's own pipeline object): every enabled growing model was called n times *)
+Definition age_mfun (n : nat) (m : mfun) : mfun :=
+  if enabled m && grows m then set_args m (Nat.iter n grow_kwargs (args m)) else m.
+
+Definition age (n : nat) (p : pipeline) : pipeline := map_groups (map (age_mfun n)) p.
+
+(* a model that cannot change its configuration (specification alternative: an implementation may
+   hand a model its own copy of the arguments) *)
+Definition freeze_mfun (m : mfun) : mfun :=
+  {| name := name m; enabled := enabled m; grows := false; args := args m |}.
+
+Definition freeze (p : pipeline) : pipeline := map_groups (map freeze_mfun) p.
+
+(* Processor.set "pipeline.<group>.<model>.arguments.<key>[.<inner> ...]": first model of that name;
+   <key> must be an argument; inner elements walk through dict-valued arguments by key and through
+   lists by index; the last element names an existing dict entry (or is <key> itself).  A path that
+   does not exist is refused by the code (AttributeError / KeyError); here it changes nothing (the
+   harness generates existing paths only). *)
+Inductive pelem := PKey (k : string) | PIdx (i : nat).
+
+Record override := { o_group : group; o_model : string; o_key : string; o_path : list pelem; o_value : pyval }.
+
+Fixpoint upd_nth {A} (i : nat) (f : A -> A) (l : list A) : list A :=
+  match l, i with
+  | [], _ => []
+  | x :: r, O => f x :: r
+  | x :: r, S j => x :: upd_nth j f r
+  end.
+
+Fixpoint upd_entry (k : string) (f : pyval -> pyval) (es : list pyval) : list pyval :=
+  match es with
+  | [] => []
+  | VList [VStr k'; x] :: r =>
+      if String.eqb k' k then VList [VStr k'; f x] :: r else VList [VStr k'; x] :: upd_entry k f r
+  | e :: r => e :: upd_entry k f r
+  end.
+
+Fixpoint set_in (path : list pelem) (v x : pyval) {struct path} : pyval :=
+  match path with
+  | [] => v
+  | PKey k :: rest => match x with VDict es => VDict (upd_entry k (set_in rest v) es) | _ => x end
+  | PIdx i :: rest => match x with VList l => VList (upd_nth i (set_in rest v) l) | _ => x end
+  end.
+
+Fixpoint upd_kw (k : string) (f : pyval -> pyval) (a : kwargs) : kwargs :=
+  match a with
+  | [] => []
+  | (k', x) :: r => if String.eqb k' k then (k', f x) :: r else (k', x) :: upd_kw k f r
+  end.
+
+Fixpoint upd_first (mn : string) (f : kwargs -> kwargs) (ms : list mfun) : list mfun :=
   match ms with
   | [] => []
-  | m :: r => if String.eqb (name m) mn
-              then {| name := name m; enabled := enabled m; args := set_kw k v (args m) |} :: r
-              else m :: upd_first mn k v r
+  | m :: r => if String.eqb (name m) mn then set_args m (f (args m)) :: r else m :: upd_first mn f r
   end.
 
 Definition apply_override (p : pipeline) (o : override) : pipeline :=
-  mk_pipeline (fun g => if group_eqb g (o_group o)
-                        then option_map (upd_first (o_model o) (o_key o) (o_value o)) (get p g)
-                        else get p g).
+  set_group p (o_group o)
+    (option_map (upd_first (o_model o) (upd_kw (o_key o) (set_in (o_path o) (o_value o)))) (get p (o_group o))).
 
 Definition apply_overrides (p : pipeline) (os : list override) : pipeline :=
   fold_left apply_override os p.
@@ -343,17 +500,43 @@ Definition capture_eqb (a b : capture) : bool :=
   let '(s, g, n) := a in let '(s', g', n') := b in
   Nat.eqb s s' && String.eqb g g' && String.eqb n n'.
 
-(* the debug tree has one node per (step, group, model name): first occurrences, in order *)
-Fixpoint dedup (seen l : list capture) : list capture :=
+(* detector.intermediate: a tree time_idx_<step> / <group> / <model>, children in insertion order, a
+   node created only if it does not exist yet.  It lives on the DETECTOR and is never cleared: a later
+   debug run on the same detector adds to what earlier debug runs left. *)
+Definition ntree := list (nat * list (string * list string)).
+
+Definition ins_name (n : string) (l : list string) : list string :=
+  if existsb (String.eqb n) l then l else l ++ [n].
+
+Fixpoint ins_group (g n : string) (l : list (string * list string)) : list (string * list string) :=
   match l with
-  | [] => []
-  | x :: r => if existsb (capture_eqb x) seen then dedup seen r else x :: dedup (x :: seen) r
+  | [] => [(g, [n])]
+  | (g', ns) :: r => if String.eqb g' g then (g', ins_name n ns) :: r else (g', ns) :: ins_group g n r
   end.
+
+Fixpoint ins_step (s : nat) (g n : string) (t : ntree) : ntree :=
+  match t with
+  | [] => [(s, [(g, [n])])]
+  | (s', gs) :: r => if Nat.eqb s' s then (s', ins_group g n gs) :: r else (s', gs) :: ins_step s g n r
+  end.
+
+Definition ins_capture (t : ntree) (c : capture) : ntree :=
+  let '(s, g, n) := c in ins_step s g n t.
+
+Definition ins_captures (t : ntree) (cs : list capture) : ntree := fold_left ins_capture cs t.
+
+Definition flatten_tree (t : ntree) : list capture :=
+  flat_map (fun sg => flat_map (fun gn => map (fun n => (fst sg, fst gn, n)) (snd gn)) (snd sg)) t.
+
+Definition capture_in (c : capture) (l : list capture) : bool := existsb (capture_eqb c) l.
 
 Inductive mode :=
 | Exposure (debug : bool)                       (* one run, debug capture on/off *)
-| Observation (runs : list (list override))     (* sequential observation: one run per entry *)
-| Calibration.                                  (* every fitness evaluation is one n-step run *)
+| Observation (runs : list (list override))     (* observation without dask: one run per entry *)
+| Calibration                                   (* every fitness evaluation is one n-step run *)
+| ObservationDask (runs : list (list override)). (* observation with dask (synchronous scheduler): the
+                                                   runs are tasks, executed in the scheduler's order,
+                                                   and dask may execute a run more than once *)
 
 Inductive outcome :=
 | Ran (trace : list obs_call) (nodes : option (list capture))   (* nodes: only with debug on *)
@@ -376,28 +559,105 @@ Fixpoint is_repetition (fuel : nat) (u t : list obs_call) : bool :=
        list_eqb obs_eqb (firstn (List.length u) t) u && is_repetition f u (skipn (List.length u) t))
   end.
 
+Definition is_nil_obs (l : list obs_call) : bool := match l with [] => true | _ => false end.
+
+(* t cut into blocks of L calls *)
+Fixpoint chunks (fuel L : nat) (t : list obs_call) : list (list obs_call) :=
+  match fuel with
+  | O => []
+  | S f => match t with
+           | [] => []
+           | _ => firstn L t :: chunks f L (skipn L t)
+           end
+  end.
+
+Definition mem_trace (x : list obs_call) (l : list (list obs_call)) : bool :=
+  existsb (list_eqb obs_eqb x) l.
+
+(* every block of the recorded calls is the complete trace of one of the requested runs, and every
+   requested run was executed (all runs of one observation make the same number of calls: a parameter
+   never switches a model on or off) *)
+Definition covers_runs (exp : list (list obs_call)) (t : list obs_call) : bool :=
+  match exp with
+  | [] => is_nil_obs t
+  | e0 :: _ =>
+      let L := List.length e0 in
+      if Nat.eqb L 0 then is_nil_obs t
+      else let cs := chunks (S (List.length t)) L t in
+           forallb (fun c => mem_trace c exp) cs && forallb (fun e => mem_trace e cs) exp
+  end.
+
 Definition captures_of (t : list call) : list capture :=
   map (fun c => (c_step c, group_name (c_group c), c_name c)) t.
 
-(* exposure.run_pipeline, result assembly: with debug on, `detector.intermediate` is read after the
-   last step; it only exists if at least one model was captured, else RuntimeError (the code as it
-   is: see C01_debug_runs_refuted and the known finding C01-debug-empty-run) *)
 Definition is_nil {A} (l : list A) : bool := match l with [] => true | _ => false end.
+
+(* exposure.run_pipeline, result assembly.  `detector._intermediate` is created by the first capture
+   (ModelGroup.run) and stays None when no model was captured; with debug on the result then holds an
+   empty `intermediate` tree (repaired defect C01-debug-empty-run: the tree used to be read
+   unconditionally, which raised RuntimeError when no model at all executed). *)
+Definition intermediate_of (caps : list capture) : option (list capture) :=
+  if is_nil caps then None else Some caps.
 
 Definition exposure_result (debug : bool) (order : list group) (p : pipeline) (n : nat)
   : res (list call * list capture) :=
   let r := run_readouts debug order p n in
-  if debug && is_nil (snd r) then Raise "RuntimeError" else Ok r.
+  Ok (fst r, if debug then match intermediate_of (snd r) with Some c => c | None => [] end else []).
 
-(* judge an observed outcome against a run function (model: order regenerated from the source,
-   through run_readouts, faithful = true: the debug/empty failure of the code is expected;
-   specification: tr_readouts spec_order, faithful = false: every valid pipeline must run) *)
-Definition expected_failure (faithful : bool)
-           (run : bool -> pipeline -> nat -> list call * list capture) (c : c01_case) (p : pipeline)
-  : option string :=
-  match k_mode c with
-  | Exposure true => if faithful && is_nil (snd (run true p (k_steps c))) then Some "RuntimeError" else None
-  | _ => None
+(* Judge ONE run of configuration p against a run function.
+     model: order regenerated from the source, through run_readouts, faithful = true: the debug tree
+            is exactly what the insertions give;
+     specification: tr_readouts spec_order, faithful = false: of the debug tree it demands exactly the
+            executed models when the detector's tree was empty before, and otherwise that every
+            executed model has its node.
+   Every run of a valid configuration completes (a `Failed` outcome never agrees).
+   `prior` is the debug tree the detector carries from earlier runs. *)
+Definition agrees_run (faithful : bool)
+           (run : bool -> pipeline -> nat -> list call * list capture)
+           (prior : ntree) (p : pipeline) (steps : nat) (m : mode) (o : outcome) : bool :=
+  match m with
+  | Exposure debug =>
+      let r := run debug p steps in
+      let tree := ins_captures prior (snd r) in
+      match o with
+      | Failed cls => false
+      | Ran t nodes =>
+          list_eqb obs_eqb t (map obs_of (fst r)) &&
+          match nodes with
+          | None => negb debug
+          | Some ns =>
+              debug &&
+              (if faithful || is_nil prior
+               then list_eqb capture_eqb ns (flatten_tree tree)
+               else forallb (fun c => capture_in c ns) (snd r))
+          end
+      end
+  | Observation runs =>
+      match o with
+      | Failed _ => false
+      | Ran t _ =>
+          list_eqb obs_eqb t
+            (flat_map (fun os => map obs_of (fst (run false (apply_overrides p os) steps))) runs)
+      end
+  | Calibration =>
+      match o with
+      | Failed _ => false
+      | Ran t _ => is_repetition (S (List.length t)) (map obs_of (fst (run false p steps))) t
+      end
+  | ObservationDask runs =>
+      match o with
+      | Failed _ => false
+      | Ran t _ =>
+          covers_runs (map (fun os => map obs_of (fst (run false (apply_overrides p os) steps))) runs) t
+      end
+  end.
+
+(* the debug tree the detector carries after the run *)
+Definition tree_after (run : bool -> pipeline -> nat -> list call * list capture)
+           (prior : ntree) (p : pipeline) (steps : nat) (m : mode) : ntree :=
+  match m with
+  | Exposure true => ins_captures prior (snd (run true p steps))
+  | _ => prior
   end.
 
 Definition agrees (faithful : bool)
@@ -405,27 +665,7 @@ Definition agrees (faithful : bool)
   match from_yaml (k_doc c), k_observed c with
   | Raise cls, Failed cls' => String.eqb cls cls'
   | Raise _, Ran _ _ => false
-  | Ok p, Failed cls' =>
-      match expected_failure faithful run c p with Some cls => String.eqb cls cls' | None => false end
-  | Ok p, Ran t nodes =>
-      match expected_failure faithful run c p with
-      | Some _ => false
-      | None =>
-      match k_mode c with
-      | Exposure debug =>
-          let r := run debug p (k_steps c) in
-          list_eqb obs_eqb t (map obs_of (fst r)) &&
-          match nodes with
-          | None => negb debug
-          | Some ns => debug && list_eqb capture_eqb ns (dedup [] (snd r))
-          end
-      | Observation runs =>
-          list_eqb obs_eqb t
-            (flat_map (fun os => map obs_of (fst (run false (apply_overrides p os) (k_steps c)))) runs)
-      | Calibration =>
-          is_repetition (S (List.length t)) (map obs_of (fst (run false p (k_steps c)))) t
-      end
-      end
+  | Ok p, o => agrees_run faithful run [] p (k_steps c) (k_mode c) o
   end.
 
 Definition model_run (order : option (list group)) (debug : bool) (p : pipeline) (n : nat)
@@ -451,9 +691,16 @@ Definition mismatches (src_names : list string) (cs : list c01_case) : list Z :=
   indices_where (fun c => negb (agrees true (model_run (order_of_names src_names)) c)) cs 0%Z.
 
 (* indices where the implementation's observed behaviour breaks the SPECIFICATION; a refused
-   document (unknown key) is outside the property's statement and is only a correspondence matter *)
+   document (unknown key) is outside the property's statement and is only a correspondence matter.
+   A growing model may legitimately be handed the very configured objects (then it sees its own
+   earlier changes) or a copy of them (then it always sees the configured value): both readings of
+   "exactly the arguments configured for it" are accepted. *)
+Definition spec_ok (c : c01_case) : bool :=
+  agrees false spec_run c ||
+  agrees false (fun d p n => spec_run d (freeze p) n) c.
+
 Definition violations (cs : list c01_case) : list Z :=
   indices_where (fun c => match from_yaml (k_doc c) with
-                          | Ok _ => negb (agrees false spec_run c)
+                          | Ok _ => negb (spec_ok c)
                           | Raise _ => false
                           end) cs 0%Z.
